@@ -12,7 +12,7 @@ Models, statement by statement where it matters (after the `fix:` commits in kno
 
 The scheduler is written against an environment `Env` that contains only functions of the slot index
 (calendar view) and plain data; `Model/Calendar.lean` computes the view, `Model/Elab.lean` the data.
-Not modelled (never emitted by the generators): `contiguous`, `maxgapduration`, `gaplength`,
+Not modelled (never emitted by the generators): `contiguous`, `maxgapduration`,
 `duration`/`length` tasks, journal, accounts.
 -/
 import Model.Ledger
@@ -24,6 +24,7 @@ structure Dep where
   gap : Int := 0          -- gapduration in calendar seconds
   onstart : Bool := false
   hasOpts : Bool := false -- stored as dict (some option given): only such entries carry a gap in the ALAP lookup
+  glen : Int := 0         -- gaplength in seconds of project working time (0 when a gapduration is given: it wins)
   deriving Repr, BEq, Inhabited
 
 structure LimitD where
@@ -423,11 +424,29 @@ def successors (e : Env) (t : Nat) : List Nat :=
   (List.range e.tasks.size).filter (fun s =>
     (e.taskD s).leaf && s != t && (e.taskD s).allDeps.any (fun dp => targets.contains dp.target))
 
-/-- forward bound: the latest of `base` and every dependency's (start | end) + gap -/
-def earliestStart (σ : St) (deps : List Dep) (base : Int) : Int :=
+/-- `gaplength`: the instant at which `rem` seconds of project working time have passed since `dt` (`i` = the slot `dt` lies
+    in; a working slot of the project calendar counts from `dt` to its end); beyond the horizon nothing is working time and
+    the walk stops at the start of the first slot outside -/
+def lenWalk (e : Env) : Nat → Int → Int → Int → Int
+  | 0, _, _, dt => dt
+  | f + 1, rem, i, dt =>
+    if rem > 0 && i ≤ e.upper then
+      if e.projWork i then
+        if e.G - (dt - e.time i) ≥ rem then dt + rem
+        else lenWalk e f (rem - (e.G - (dt - e.time i))) (i + 1) (e.time (i + 1))
+      else lenWalk e f rem (i + 1) (e.time (i + 1))
+    else dt
+
+/-- the date a dependency contributes to the forward bound: (start | end) + gapduration, or — when no gapduration is given
+    (`if gapduration: … elif gaplength: …`; the caller sets `glen` only then) — moved on by `gaplength` of project working time -/
+def depDate (e : Env) (dp : Dep) (dt : Int) : Int :=
+  if dp.glen > 0 && dp.gap == 0 then lenWalk e (e.size.toNat + 2) dp.glen (e.idx dt) dt else dt + dp.gap
+
+/-- forward bound: the latest of `base` and every dependency's date -/
+def earliestStart (e : Env) (σ : St) (deps : List Dep) (base : Int) : Int :=
   deps.foldl (fun acc dp =>
     match (if dp.onstart then (σ.tst dp.target).start else (σ.tst dp.target).stop) with
-    | some dt => max acc (dt + dp.gap)
+    | some dt => max acc (depDate e dp dt)
     | none => acc) base
 
 /-- slot of the bound and the offset of the bound inside that slot -/
@@ -460,8 +479,8 @@ def initCursor (e : Env) (σ : St) (t : Nat) : Int × Rat :=
     match ts.start with
     | some s =>
       if d.startProvided then (e.idx s, 0)
-      else cursorOf e (earliestStart σ d.allDeps (max e.start s))
-    | none => cursorOf e (earliestStart σ d.allDeps e.start)
+      else cursorOf e (earliestStart e σ d.allDeps (max e.start s))
+    | none => cursorOf e (earliestStart e σ d.allDeps e.start)
   else
     let endDate := match ts.stop with
       | some x => x
